@@ -80,8 +80,11 @@ func (d *deduplicator) notifyDKGResultSubmitted(
 ) bool {
 	d.dkgResultHashCache.Sweep()
 
-	cacheKey := newDKGResultSeed.Text(16) +
-		hex.EncodeToString(newDKGResultHash[:]) +
+	// The components are separated so that two different (seed, hash, block)
+	// triples can never produce the same key: the seed and the block have
+	// variable-length textual representations.
+	cacheKey := newDKGResultSeed.Text(16) + "-" +
+		hex.EncodeToString(newDKGResultHash[:]) + "-" +
 		strconv.Itoa(int(newDKGResultBlock))
 
 	// If the key is not in the cache, that means the result was not handled
